@@ -60,6 +60,10 @@ def parseOp : List String → Option POp
   | ["len"] => some .len
   | ["reverse"] => some .reverse
   | ["slice"] => some .slice
+  | ["imul", k] => do some (.imul (← parseInt k))
+  | ["iadd", vs] => do some (.iadd (← parseVals vs))
+  | ["view0"] => some .view0
+  | ["view1"] => some .view1
   | ["dset", k, v] => do some (.dset (← parseVal k) (← parseVal v))
   | ["dget", k] => do some (.dget (← parseVal k))
   | ["ddel", k] => do some (.ddel (← parseVal k))
@@ -99,6 +103,7 @@ def showObj : Option Obj → String
   | some (.ns kv) => "N:" ++ (if kv.isEmpty then "-" else ",".intercalate (kv.map fun p => s!"{p.1}={showVal p.2}"))
   | some (.cell v) => s!"C:{showVal v}"
   | some (.ctr n _) => s!"T:{n}"
+  | some (.hub _ _) => "H"
   | none => "none"
 
 structure St where
@@ -131,6 +136,10 @@ partial def loop (h : IO.FS.Stream) (st : St) : IO Unit := do
     | "dict", _ => loop h (newObj st a (.dct []))
     | "ns", _ => loop h (newObj st a (.ns []))
     | "cell", [v] => loop h (newObj st a (.cell ((parseVal v).getD .none)))
+    | "hub", [x, y] =>
+      let xa := x.toNat?.getD 0
+      let ya := y.toNat?.getD 0
+      loop h (newObj (newObj (newObj st xa (.lst []) false) ya (.lst []) false) a (.hub xa ya))
     | "ctr", [n, l] =>
       let la := l.toNat?.getD 0
       loop h (newObj (newObj st la (.lst []) false) a (.ctr ((parseInt n).getD 0) la))
